@@ -102,6 +102,46 @@ func c01Joints(c *Ctx) []layout.RTPair {
 	}
 }
 
+// c01Stuffing: whatever function WriteData calls to obtain the stuffing-only adaptation field (the call whose result is
+// stored into the packet's AdaptationField), composed with writePacketAdaptationField, occupies exactly the n bytes it was
+// asked for — for every state of its other parameters (a maker that reuses an object of the muxer must reset every field).
+func c01Stuffing(c *Ctx, lk *layout.Checker) {
+	r := c.R
+	wd := c.fn("Muxer.WriteData")
+	if wd == nil {
+		r.Unknown("A2", "stuffing/anchor", "", "Muxer.WriteData not found")
+		return
+	}
+	makers := map[*ssa.Function]bool{}
+	for _, b := range wd.Blocks {
+		for _, in := range b.Instrs {
+			st, ok := in.(*ssa.Store)
+			if !ok {
+				continue
+			}
+			fa, ok := st.Addr.(*ssa.FieldAddr)
+			if !ok {
+				continue
+			}
+			if n, ok := ssau.FieldName(fa); !ok || n != "AdaptationField" {
+				continue
+			}
+			if call, ok := st.Val.(*ssa.Call); ok {
+				if cal := call.Call.StaticCallee(); cal != nil && cal.Pkg == c.P.SSAPkg {
+					makers[cal] = true
+				}
+			}
+		}
+	}
+	if len(makers) == 0 {
+		r.Unknown("A2", "stuffing/maker", c.P.Pos(wd.Pos()), "no call in WriteData whose result becomes the packet's adaptation field: how the stuffing adaptation field is built cannot be decided")
+		return
+	}
+	for m := range makers {
+		lk.MadeSize(r, "stuffing/"+m.Name()+"=writePacketAdaptationField", m, c.fn("writePacketAdaptationField"), 1)
+	}
+}
+
 func c01(c *Ctx) {
 	r := c.R
 	r.Explanation = "Structural necessary conditions of the mux→demux round trip, decided for all inputs: (a) every structure on the mux path is read back field for field by the library's own parsers (rule A3: TS header, PCR, adaptation field for all 145 flag valuations, PES header with PTS/DTS/ESCR, section syntax header, PAT and PMT bodies with 0/1/2 entries; the PES optional header for all valuations is decided under C12, descriptor bodies under C14); the joints: a whole packet written by writePacket is parsed back by parsePacket (sync byte, header, adaptation field, payload bytes, padding to 188); " +
@@ -143,7 +183,7 @@ func c01(c *Ctx) {
 	// the stuffing adaptation field WriteData builds for n free bytes occupies exactly n bytes (otherwise writePacket
 	// pads after the payload and the demuxer returns the padding as payload)
 	lk := layout.New(c.P)
-	lk.MadeSize(r, "stuffing/newStuffingAdaptationField=writePacketAdaptationField", c.fn("newStuffingAdaptationField"), c.fn("writePacketAdaptationField"), 1)
+	c01Stuffing(c, lk)
 	muxstate.ESPairing(c.P, r)
 	c01AFCarried(c)
 	c01StuffingReset(c)
